@@ -740,7 +740,8 @@ def rule_device_paths(ck):
                 dd.update(had)
         ps = I.explore(thunk)
         if len(ps) != 1 or ps[0].kind != "return":
-            raise Unknown(f"path functions on {path!r}: {ps}")
+            ck.incomplete("devices::open_device", f"path functions on {path!r}", ps)
+            continue
         isdev, isabs, resolved, keys = ps[0].value
         want = path if is_dev else os.path.normpath(os.path.join(os.path.dirname(base), path))
         ck.instance(("device-path", path), {"path": path, "is_device_path": isdev, "resolved against dir/src.mac": resolved}, fn=where)
@@ -753,6 +754,21 @@ def rule_device_paths(ck):
                          construct="directive path resolution", expected=want, found=repr(resolved))
         if keys != [dev]:
             ck.violation("devices::is_device_path", f"looking at the path {path!r} changes the device registry to {keys}", construct="device registry changed by lookup")
+    # an ordinary file: open_device(path, mode) is open(path, mode) - that file, that mode, nothing else
+    for path, mode in (("out/prog.bin", "wb"), ("~backup", "wb"), ("in.raw", "rb")):
+        def thunk_o(path=path, mode=mode):
+            n0 = len(I.effects)
+            r = I.call(I.module_get("devices", "open_device"), [path, mode], {})
+            return [e[1:] for e in I.effects[n0:] if e[0] == "open"], r
+        ps = I.explore(thunk_o)
+        ck.instance(("open-device", path, mode), {"open_device": [path, mode], "opens": repr(ps[0].value[0]) if ps and ps[0].kind == "return" else None}, fn="devices::open_device")
+        if len(ps) != 1 or ps[0].kind != "return":
+            ck.incomplete("devices::open_device", f"open_device({path!r}, {mode!r})", ps)
+            continue
+        opens, r = ps[0].value
+        ok = len(opens) == 1 and (tuple(opens[0][0]) + tuple(v for k_, v in opens[0][1] if k_ in ("file", "mode")))[:2] == (path, mode) and r == sym.var("file", "obj")
+        if not ok:
+            ck.violation("devices::open_device", f"open_device({path!r}, {mode!r}) for an ordinary file opens {opens!r}; expected exactly open({path!r}, {mode!r}) and its file object returned", construct="open_device ordinary file")
 
 
 def run(ck):
